@@ -16,10 +16,19 @@ def _offset_ids(line, off):
 def c17_pair(rng, name):
     """(A, B, C): A = contexts K plus input-disjoint contexts D; B = K alone with the same input script (D's inputs become activity
     on inputs nobody binds); C = K alone without that activity"""
-    kprof = Profile(ctx_pool=[0, 2, 4], n_ctx=(1, 2), keys=[0, 1], mask_choices=[1, 2, 3], mbtns=[0], pads=(1, 1), pad_ctx_p=1.0,
+    # half of the kept contexts are not tied to a gamepad (they read their buttons / axes on every gamepad); the deleted contexts are
+    # tied to the second gamepad and bind *other* buttons / axes, so the two sides stay input-disjoint (seeded change C17r4: the
+    # reader's gamepad selection leaking from a tied context into an untied one evaluated after it)
+    # (the other half of the pairs ties every context to its own gamepad and lets both sides use the same buttons / axes: seeded
+    # change C17, a held-at-creation test that looks at every gamepad)
+    untied = rng.random() < 0.5
+    kprof = Profile(ctx_pool=[0, 2, 4], n_ctx=(1, 2), keys=[0, 1], mask_choices=[1, 2, 3], mbtns=[0], pads=(1, 1),
+                    pad_ctx_p=0.5 if untied else 1.0,
+                    padbtn_pool=[0, 1] if untied else [0, 1, 4], padaxis_pool=[0] if untied else [0, 1],
                     input_kinds=["key"] * 5 + ["mbtn", "motion", "padbtn", "padaxis"], actions=list(range(16)),
                     lifecycle_p=0.08, noise_keys=[4, 5], modmask_p=0.3, n_entities=(1, 2))
     dprof = Profile(ctx_pool=[1, 3, 5], n_ctx=(1, 2), keys=[2, 3], mask_choices=[4, 8, 12], mbtns=[1], pads=(1, 1), pad_ctx_p=1.0,
+                    padbtn_pool=[4] if untied else [0, 1, 4], padaxis_pool=[1] if untied else [0, 1],
                     input_kinds=["key"] * 5 + ["mbtn", "wheel", "padbtn", "padaxis"], actions=list(range(16, 32)),
                     modmask_p=0.3)
     kg = gen.AppGen(rng, kprof)
